@@ -986,6 +986,23 @@ def c09(m, o):
             continue
         checks += 1
         same(ref, outs(m2), "runner built with other values for the dynamic parameters %s" % (dn,))
+    # 3c. the same partitions on a model whose default parameters hold other values: what was fixed when the runner was
+    #     built is fixed for the whole run (rates and derived outputs alike); the defaults only fill in what is missing
+    wrong_d = {k: v * 3 + 1 for k, v in p.items()}
+    for dyn in subsets[: (64 if o.get("exhaustive") else 6)]:
+        if len(dyn) == len(used):
+            continue
+        m2, _, _ = impl.build(dict(prog, obs=[]))
+        m2.set_default_parameters(dict(wrong_d))
+        base = {k: v for k, v in p.items() if k not in dyn}
+        try:
+            r = m2.get_runner(base, dyn_params=dyn, jit=False, solver=solver)
+            r.run({k: p[k] for k in dyn})
+        except BaseException as e:  # noqa
+            viol.append("partition dyn=%s on a model with other default values raises %r" % (dyn, e))
+            continue
+        checks += 1
+        same(ref, outs(m2), "partition dyn=%s, the other parameters fixed at build time, on a model whose defaults hold other values" % dyn)
     # 4. defaults fill in omitted values; supplied values win
     if used:
         m3, _, _ = impl.build(dict(prog, obs=[]))
